@@ -397,7 +397,21 @@ def runQuery (sch : Sched) (opt : Bool) (q : JQuery) (db : Db) : Option (List (L
     | none => none
     | some rs => consolidate [] rs
 
-/-! ### two concrete schedulers -/
+/-- what `-o csv` / `-o json` printed before `fix: consolidate plans that can retract before the csv and json sinks`:
+    `eager.OutputPrinter` writes `record.Values` of every record it receives and never looks at `record.Retraction` -/
+def runQueryRaw (sch : Sched) (opt : Bool) (q : JQuery) (db : Db) : Option (List (List Value)) :=
+  match planQ db q with
+  | none => none
+  | some p =>
+    match denote sch db (if opt then optimize db p else p) [] with
+    | none => none
+    | some rs => some (rs.map fun r => r.vals)
+
+/-! ### concrete schedulers -/
+
+/-- the right input is served completely before the left one -/
+def rightFirst : Sched := fun a b => b ++ a
+
 
 /-- the left input is served completely before the right one -/
 def leftFirst : Sched := fun a b => a ++ b
